@@ -21,7 +21,7 @@ ASSUMPTIONS = ['main exploration uses CR-free texts; CR / CRLF inputs are exerci
 IMPORTS = ['From CV Require Import Matcher.NM Matcher.NMCorr Passes.Edit Passes.PassCorr.']
 
 TOKENS = ['#\n', '#', ' 0xFFFFFFFFFFFFFFFF;', '42;\n', '/***/', '/** d **/', '/* a **/', '/*/', 'a', 'b1', '(', ')', '{', '}', '[', ']', '<', '>', '=', ',', ':', '?', ';', "'x'", '0', '12', '0x1F', '7U', '-3', ' ', ' ', '\n', '\n',
-          '# 3 "f.c"\n', '#include <a.h>\n', '// c\n', '/* k */', '/**/', 'while', 'int', 'class', "extern 'C'", 'transparent_crc(a, b)', '\n\n', '#if X\n', '+=', '+']
+          '# 3 "f.c"\n', '#include <a.h>\n', '# include "b.h"\n', '#\tinclude <c.h>\n', '  #  include <d.h>\n', '// c\n', '/* k */', '/**/', 'while', 'int', 'class', "extern 'C'", 'transparent_crc(a, b)', '\n\n', '#if X\n', '+=', '+']
 
 
 def gen_text(rnd, n=None):
@@ -248,6 +248,14 @@ def explore(ctx):
                 ctx.nontriv(('includes', text, k))
                 if out == text or not is_subseq(out, text):
                     viol('bad-edit:includes', f'includes on {text!r} k={k}: {out!r}', rep)
+            # every include directive ('#' and 'include' possibly separated / preceded by blanks) is an instance: cursor k removes the
+            # k-th of them and nothing else; beyond the last one the pass stops
+            inc_idx = [j for j, l in enumerate(lines) if re.match(r'[ \t\f\v]*#[ \t\f\v]*include', l)]
+            if len(inc_idx) == sum(1 for l in lines if re.match(r'\s*#\s*include', l)):      # (no exotic white space in this text)
+                want = (''.join(l for j, l in enumerate(lines) if j != inc_idx[k - 1]) if k <= len(inc_idx) else None)
+                if (want is None) != (res != 'OK') or (want is not None and out != want):
+                    viol('not-all-offered:includes', f'includes on {text!r} cursor {k}: the file has {len(inc_idx)} include directives; expected '
+                         f'{"the pass to stop" if want is None else repr(want)}, got {res} {out!r}', rep)
             cs.add('run_includes', f'({ct(text)}, {"[" + "; ".join(ct(l) for l in incs) + "]" if incs else "(@nil text)"}, {k})',
                    [{'OK': 0, 'STOP': 2}[res]] + enc_text(out))
         p = mk(BlankPass, None)
@@ -272,6 +280,21 @@ def explore(ctx):
                         viol('bad-edit:blank', f'blank on {text!r} st={st}: {out!r} is not the text minus whole lines', rep)
             tl = lambda ls: ('[' + '; '.join(ct(l) for l in ls) + ']') if ls else '(@nil text)'
             cs.add('run_blank', f'({ct(text)}, {tl(m0)}, {tl(m1)}, {st})', [{'OK': 0, 'STOP': 2}[res], st2] + enc_text(out))
+        # every instance is offered when all candidates are rejected: the driver asks cursors new(), advance(new()), ... until STOP;
+        # the text minus its blank lines and the text minus its '#' lines must both be among the candidates (when there are such lines)
+        offered, st_ = [], p.new(path, None)
+        for _ in range(6):
+            res, out, _st2, _left = run_transform(ctx, p, text, st_)
+            if res != 'OK':
+                break
+            offered.append(out)
+            st_ = p.advance(path, st_)
+        for what, pat in (('blank lines', r'^\s*$'), ("'#' lines", r'^#')):
+            if any(re.match(pat, l) for l in lines):
+                want = ''.join(l for l in lines if not re.match(pat, l))
+                if want not in offered:
+                    viol('not-all-offered:blank', f'blank on {text!r}: with every candidate rejected the pass offered {offered!r}; the text minus its {what} '
+                         f'({want!r}) was never offered', {'pass': 'blank', 'text': text})
         # ---------------- comments ----------------
         p = mk(CommentsPass, None)
         bs = [m.span() for m in re.finditer(r'/\*(?:\*(?!/)|[^*])*\*/', text, flags=re.DOTALL)]
